@@ -25,6 +25,33 @@ CHECKS = {
         design_ref="DESIGN.md §3.7, §4 C20"),
 }
 
+_IF_NOTE = ("Trusted: TLC; testing/synctest fake clock; the export shim (client/verif_hooks.go) and the projection of the real "
+            "handler; bounds N<=3 (all histories to depth 5/6) and N<=4 (random walks).")
+CHECKS["C09"] = dict(
+    level="model_checking",
+    text="InFlightSeq.tla (code-shaped, one action per API call) is model-checked exhaustively for small N with the C09 invariants "
+         "(Unique, InRange, Conserve, Bounded) and action properties (RefuseWhenFull, AcceptWhenRoom), and TLC checks that it refines "
+         "the property-level InFlightAbs.tla. Every history of {send managed, send explicit, deliver final/non-final/unknown, receive, "
+         "close, tick} up to depth 5 (quick) / 6 (thorough) and random walks for larger N are executed on the real handler; every "
+         "step's projection is compared with the spec state and differing runs are judged by TLC against InFlightAbs.",
+    note=_IF_NOTE, technique="TLA+ model checking + exhaustive bounded-history replay + TLC trace validation",
+    design_ref="DESIGN.md §3.5, §4 C09")
+CHECKS["C10"] = dict(
+    level="model_checking",
+    text="Same specification and pipeline as C09, for the routing clauses: invariants Ordered, Exclusive and action properties "
+         "UnknownNoEffect, OnlyTarget, CompleteOnLast of InFlightSeq.tla; in InFlightAbs a response may only be appended to the request "
+         "registered under its id (or dropped if that request is done); frames are numbered and AppReceive must return the head. "
+         "Replayed on the real handler for every bounded history; rejected traces are violations.",
+    note=_IF_NOTE, technique="TLA+ model checking + exhaustive bounded-history replay + TLC trace validation",
+    design_ref="DESIGN.md §3.5, §4 C10")
+CHECKS["C16"] = dict(
+    level="model_checking",
+    text="Handler-level part: close and timeout steps of InFlightSeq.tla/InFlightAbs.tla (CloseCompletes, DoneConsistent, "
+         "TimeoutOnlyAfterSilence; ATick makes exactly the requests silent for the whole timeout fail) replayed on the real handler under "
+         "a fake clock; panics of the library and goroutines surviving handler close (confirmed 3/3) are violations.",
+    note=_IF_NOTE, technique="TLA+ model checking + exhaustive bounded-history replay under synctest + TLC trace validation",
+    design_ref="DESIGN.md §3.5, §4 C16")
+
 NOT_YET = {}
 
 
